@@ -156,6 +156,7 @@ func genBundle(r *R, opts FlatOpts, plus bool, thorough bool, force map[string]b
 	flag("altSpelling", 25)
 	flag("untyped", 25)
 	flag("unusedShared", 20)
+	flag("punctNames", 8)
 	flag("sameDirTwins", 10)
 	flag("rootNoDefs", 10)
 	flag("security", 45)
@@ -276,6 +277,16 @@ func genBundle(r *R, opts FlatOpts, plus bool, thorough bool, force map[string]b
 	}
 	if g.on("sameDirTwins") {
 		g.plantSameDirTwins()
+	}
+	if g.on("punctNames") && !g.on("rootNoDefs") {
+		// a definition and properties whose names contain no letter or digit at all, holding inline complex schemas
+		g.addRootDef("{}", obj{"type": "object", "properties": obj{
+			"?": obj{"type": "object", "properties": obj{"v": g.primitive()}},
+			"_": obj{"type": "array", "items": []any{g.primitive(), g.primitive()}},
+			"n": g.primitive()}})
+		if g.r.P(50) {
+			g.addRootOp("/punct", obj{"$ref": mkRef("", "definitions", "{}")})
+		}
 	}
 	if g.on("anonPtr") && !opts.Expand {
 		g.plantAnonPointers()
@@ -1092,6 +1103,10 @@ func (g *bundleGen) ensureAuxUsed() {
 					g.addRootOp(fmt.Sprintf("/use%s%d", short, i), ref)
 				} else {
 					g.addRootOp(fmt.Sprintf("/use%s%d", short, i), obj{"type": "array", "items": ref})
+				}
+				// more referrers, all of them at operation level
+				for u := 0; u < g.r.Range(0, 3); u++ {
+					g.addRootOp(fmt.Sprintf("/%s%s%d%d", []string{"a", "m", "z"}[g.r.Intn(3)], short, i, u), obj{"$ref": g.refToAlt(rd, ad, "definitions", n)})
 				}
 				continue
 			}
